@@ -11,8 +11,11 @@
 (*                                                                         *)
 (* is built node by node in canonical (sorted preorder) form, so that each *)
 (* tree is one state.  On every well-formed tree TLC checks the laws below *)
-(* for every control value injected at every callback position and emits   *)
-(* one tour line per (tree, control) with the specification's walk.        *)
+(* for every control value (Break, Terminate, error) injected at every     *)
+(* callback position, for all pairs of control values on trees of up to    *)
+(* PairMax nodes and for the lattice-relevant pairs at adjacent callbacks  *)
+(* on larger trees, and emits one tour line per (tree, control, callback   *)
+(* mode) with the specification's walk, plus unordered runs.               *)
 (***************************************************************************)
 EXTENDS RangeWalk, Json
 
